@@ -31,6 +31,19 @@ class Fold:
 
 
 @dataclass
+class InPlaceMap:
+    """`for i, x in enumerate(r): r[i] = g(x)` (the only write is at index i) == r := fn(r), fn = map of `step`"""
+    fn: str                       # L1 map function over the list sort (checked: fn(cons(c, r)) == cons(step, fn(r)))
+    list_var: str
+    step: str                     # L1 expression over `c` for the new element
+    elem_raises: Optional[str] = None   # L1 Bool over `c`: the body raises iff this holds
+    raises: Optional[str] = None
+    raises_fold: Optional[str] = None   # L1 Bool over `xs`
+    elem_inv: Optional[str] = None      # L1 Bool over `c` assumed for every element ...
+    list_inv: Optional[str] = None      # ... justified by this L1 Bool over `xs` (obligation at loop entry; checked to be `all elem_inv`)
+
+
+@dataclass
 class Unroll:
     """loop over a constant of the current source: unrolled completely (exhaustive, not bounded)"""
     pass
@@ -71,6 +84,12 @@ class Contract:
     post: dict = field(default_factory=dict)    # modified parameter -> L1 expression for its state at normal return
     unchanged_on_raise: list = field(default_factory=list)   # modified parameters that must be unchanged when the call raises
     no_differential: bool = False
+    inherited_from: Optional[str] = None        # if the class does not define the method in /repo, the body verified is this (stdlib source)
+
+    def body_name(self, src):
+        if self.inherited_from and not src.has(self.name):
+            return self.inherited_from
+        return self.name
 
     def sort_of(self, p):
         for n, s in self.params:
